@@ -107,7 +107,7 @@ Section Theorems2.
     - unfold do_stop. destruct (r_state st); exact H.
     - unfold do_crash. destruct (r_state st); exact H.
     - unfold do_finish. destruct (r_state st); try exact H. destruct (forallb (fun p => null (snd p)) (r_queue st)); [|exact H].
-      cbn. destruct (sw_inval fixed || (0 <? r_changed st)); [|exact H]. apply Forall_app. split; [exact H | constructor; [reflexivity | constructor]].
+      cbn. match goal with |- context [if ?c then _ ++ _ else _] => destruct c end; [|exact H]. apply Forall_app. split; [exact H | constructor; [reflexivity | constructor]].
     - exact H.
   Qed.
 
@@ -122,13 +122,15 @@ Section Theorems2.
   Theorem finish_invalidates : forall (st : rst) pseqs, r_state st = MRunning -> forallb (fun p => null (snd p)) (r_queue st) = true ->
     let st' := do_finish allcols fixed st pseqs in
     r_state st' = MCompleted /\
-    (sw_inval fixed = true \/ 0 < r_changed st ->
+    ((sw_inval fixed = true /\ 0 < r_clock st) \/ 0 < r_changed st ->
        r_ps st' = invalidate_all (r_ps st) /\ r_log st' = r_log st ++ [allcols] /\ r_dirty st' = false) /\
     (sw_inval fixed = false -> r_changed st = 0 -> r_ps st' = r_ps st /\ r_log st' = r_log st /\ r_dirty st' = r_dirty st).
   Proof.
     intros st pseqs Hs Hq. unfold do_finish. rewrite Hs, Hq. cbn. split; [reflexivity|]. split.
-    - intros [H|H]; [rewrite H; cbn; auto|]. apply N.ltb_lt in H. rewrite H, orb_true_r. auto.
-    - intros H1 H2. rewrite H1, H2. cbn. auto.
+    - intros [[H1 H2]|H].
+      + apply N.ltb_lt in H2. rewrite H1, H2. cbn. auto.
+      + apply N.ltb_lt in H. rewrite H, !orb_true_r. auto.
+    - intros H1 H2; rewrite H1, H2; cbn; auto.
   Qed.
 
   (* ================================================================ (3) the documents that are stale after a completed run *)
@@ -224,9 +226,8 @@ Section Theorems2.
     - unfold do_finish. destruct (r_state st) eqn:Es; try exact D.
       destruct (forallb (fun p => null (snd p)) (r_queue st)); [|exact D].
       unfold DInv. cbn. split; [intros _; apply D1; discriminate|].
-      destruct (sw_inval fixed || (0 <? r_changed st)) eqn:E; [reflexivity|].
-      apply orb_false_iff in E. destruct E as [_ E].
-      destruct (r_dirty st); [|reflexivity]. specialize (D2 eq_refl). apply N.ltb_ge in E. lia.
+      match goal with |- (if ?c then _ else _) = _ => destruct c eqn:E end; [reflexivity|].
+      destruct (r_dirty st); [|reflexivity]. specialize (D2 eq_refl). apply N.ltb_lt in D2. rewrite D2, !orb_true_r in E. discriminate.
     - unfold do_load, DInv in *. cbn. exact D.
   Qed.
 
